@@ -20,6 +20,7 @@ RULE = ("for each corpus script and each k = 1..N (N = back-end calls of the fau
 RULE += ("  " + 'Also: bursts of commands with exactly one user of the failing operation (replies judged by position); a bare PathIOError; time-outs as failures; every other probe re-uses the passive listener of the failed transfer.')
 RULE += ("  " + 'Also (round 6): the aborted-in-mid-transfer script belongs to the quick tier as well.')
 RULE += ("  " + 'Also: the failed upload command is simply given again and must work.')
+RULE += ("  " + 'Also (round 7): socket_timeout configured and downloads larger than every buffer, a fault at every back-end call (the reply must still be 451).')
 ASSUMPTIONS = [
     "faults are raised inside aioftp's own universal_exception wrapper by a spying subclass of the shipped back end",
     "a data connection must be closed by the server only when the transfer was started (1xx mark sent)",
